@@ -159,13 +159,15 @@ def _layout(ty, structs, depth=0):
         e = _layout(m.group(2), structs, depth + 1)
         return (int(m.group(1)) * e[0], e[1]) if e else None
     if ty in structs and depth < 6:
+        packed = ty in structs.get('__packed__', ())
         off, al = 0, 1
         for f in structs[ty]:
             e = _layout(f, structs, depth + 1)
             if e is None:
                 return None
-            off = (off + e[1] - 1) // e[1] * e[1] + e[0]
-            al = max(al, e[1])
+            fa = 1 if packed else e[1]
+            off = (off + fa - 1) // fa * fa + e[0]
+            al = max(al, fa)
         return (off + al - 1) // al * al, al
     return None
 
